@@ -32,6 +32,7 @@ def required_cells(tier):
     for t in TRIPLES:
         req["triple:%s,%s,%s" % t] = 2 if q else 25
     req["assoc:nonempty"] = 300 if q else 5000
+    req["body:more-than-10-faces-vs-line"] = 30 if q else 500
     req["law:idempotent"] = 1000 if q else 10000
     req["law:subset"] = 150 if q else 2500
     req["law:vertices-in-both"] = 500 if q else 8000
@@ -47,6 +48,8 @@ def cases(rng, budget, widx, nworkers, tier):
         ka, kb, kc = TRIPLES[i % 343]
         i += 1
         a = gen.rand_obj(rng, ka, small=sm())
+        if ka == "PH" and "L" in (kb, kc) and rng.random() < 0.25:
+            a = gen.big_prism(rng) or a        # many-faced body (12 faces) against a line
         r = rng.random()
         b = gen.targeted(rng, kb, a) if r < 0.8 else gen.rand_obj(rng, kb, small=sm())
         if ka == "PH" and kb == "PH" and rng.random() < 0.3:
@@ -108,6 +111,8 @@ def judge(case):
         raise AssertionError("oracle itself is not associative on this case")
     mu = core.Multi()
     mu.cell("triple:%s,%s,%s" % (ka, kb, kc))
+    if "L" in (ka, kb, kc) and any(d[0] == "PH" and len(d[2]) > 10 for d in (a, b, c)):
+        mu.cell("body:more-than-10-faces-vs-line")
     r = random.Random(case["ls"])
     h = case.get("hist")
     A, B, Cc = [C.lift_via_history(d, h, r) if (h and h["who"] == i) else lift(d, r) for i, d in enumerate((a, b, c))]
